@@ -212,17 +212,15 @@ func fhirCarrier(m model.CVal, variant int) (any, bool) {
 
 // decScale: number of fraction digits needed to print the rational exactly (it has a finite expansion).
 func decScale(r interface{ FloatString(int) string }) int {
-	for s := 0; s <= 40; s++ {
+	orig, _ := model.ParseNum(r.FloatString(450))
+	for s := 0; s <= 400; s++ {
 		txt := r.FloatString(s)
 		back, ok := model.ParseNum(txt)
-		if ok {
-			orig, _ := model.ParseNum(r.FloatString(45))
-			if back.Cmp(orig) == 0 {
-				return s
-			}
+		if ok && back.Cmp(orig) == 0 {
+			return s
 		}
 	}
-	return 40
+	return 400
 }
 
 type c05Pool struct {
